@@ -708,7 +708,9 @@ func HashSetIndex(vm *Thread, set *HashSetOfValue, val value.Value) (int, value.
 		// when we reach the start index
 		// all slots are checked
 		if index == startIndex {
-			return -1, value.Undefined
+			// there are no empty slots left, reuse a deleted slot if one
+			// has been seen, otherwise `deletedIndex` is -1
+			return deletedIndex, value.Undefined
 		}
 	}
 }
